@@ -373,6 +373,12 @@ func main() {
 	switch mode {
 	case "check":
 		os.Exit(check(prop, *tier, seed, *budget, *workers, *maxSeeds, race, *noMin))
+	case "det":
+		n := *maxSeeds
+		if n == 0 {
+			n = 200
+		}
+		os.Exit(detSelfTest(prop, n, race, seed))
 	case "replay":
 		if fs.NArg() < 1 {
 			infra("replay needs a file")
